@@ -1,4 +1,4 @@
-CONSTANTS Tasks = {t1, t2}  MaxOps = 2  YieldSet = TRUE  TSO = TRUE  Bug = "none"  RelPlain = FALSE
+CONSTANTS Tasks = {t1, t2}  MaxOps = 2  YieldSet = TRUE  TSO = TRUE  Bug = "none"  RelPlain = FALSE  Nb0 = 7  EnvNb = FALSE
 CONSTANT Prog <- ExtractedProg  EntryAcq <- ExtractedEntryAcq  EntryTry <- ExtractedEntryTry  EntryRel <- ExtractedEntryRel
 SPECIFICATION Spec
 INVARIANT MutualExclusion
@@ -7,5 +7,6 @@ INVARIANT FreeWhenIdle
 INVARIANT Visibility
 INVARIANT EntrySeesAll
 INVARIANT NoWildAccess
+INVARIANT NeighbourIntact
 CHECK_DEADLOCK FALSE
 SYMMETRY Symm
